@@ -32,13 +32,39 @@ def functions():
     """
     return H.split_ok(n, s, L)
 '''))
+    for pi, pr in enumerate(H.PROGS.BANK):
+        n = f"c10_trace_{pi:02d}"
+        fs.append((n, f'''def {n}(a: int, b: int, c: int) -> bool:
+    """
+    pre: 0 <= a <= 3 and 0 <= b <= 3 and 0 <= c <= 3
+    post: _
+    """
+    return H.trace_ok({pi}, a, b, c)
+'''))
     return fs
+
+
+def census():
+    """native census of the program bank: how many selector triples are accepted / rejected / raise under CPython"""
+    import itertools
+    out = {}
+    for pi, pr in enumerate(H.PROGS.BANK):
+        acc = rej = err = 0
+        for a, b, c in itertools.product(range(4), repeat=3):
+            if H.python_eval(pi, a, b, c) is None:
+                err += 1
+            elif H.cohdl_eval(pi, a, b, c) is None:
+                rej += 1
+            else:
+                acc += 1
+        out[pr.__name__] = {"accepted": acc, "rejected_by_cohdl": rej, "raises_in_cpython": err}
+    return out
 
 
 def run(tier: str) -> int:
     rep = Reporter("C10", tier, "other")
     fs = functions()
-    res, cpu = chrun.run_functions(fs, PRELUDE, per_cond=120 if tier == "quick" else 600, chunk=2)
+    res, cpu = chrun.run_functions(fs, PRELUDE, per_cond=600 if tier == "quick" else 1800, chunk=2)
     confirmed = 0
     for fn, (status, msg) in sorted(res.items()):
         rep.stats.queries += 1
@@ -56,6 +82,11 @@ def run(tier: str) -> int:
                 if not H.bind_ok(fi, *vals):
                     rep.violation(f"bind|{H.BANK[fi].__name__}|npos={vals[0]}|mask={vals[1]}", "argument binding differs from CPython: " + H.describe(fi, *vals), {"args": vals, "crosshair": msg})
                     continue
+            if vals and fn.startswith("c10_trace_"):
+                pi = int(fn.split("_")[2])
+                if not H.trace_ok_concrete(pi, *vals):
+                    rep.violation(f"trace|{H.PROGS.BANK[pi].__name__}", "compile-time evaluation differs from CPython: " + H.trace_describe(pi, *vals), {"args": vals, "prog": H.PROGS.BANK[pi].__name__, "crosshair": msg})
+                    continue
             if vals and fn == "c10_split" and not H.split_ok(*vals):
                 rep.violation(f"split|n={vals[0]}|star={vals[1]}|len={vals[2]}", f"starred target splitting differs from CPython for {vals}", {"args": vals})
                 continue
@@ -63,11 +94,20 @@ def run(tier: str) -> int:
         else:
             rep.stats.unknown += 1
             rep.inconclusive_query(f"{fn}: {msg[:150]}")
+    cen = census()
+    usable = [k for k, v in cen.items() if v["accepted"] > 0]
+    must_work = [k for k, v in cen.items() if v["raises_in_cpython"] < 64]
+    if len(usable) * 2 < len(must_work):
+        rep.inconclusive_query(f"only {len(usable)} of {len(must_work)} bank programs are accepted by the compiler at all: the trace-evaluation part is vacuous")
+    rep.stats.units |= {"cohdl._compiler.frontend._prepare_ast.PrepareAst.apply_impl (Compare / BinOp dispatch with reflected fallback, BoolOp, Call, constructor emulation, super, properties, comprehensions, starred unpacking, subscripts, constant control flow) -- executed concretely per path",
+                        "cohdl._core._collect_ast_and_scope (_ClassifyNames, closure capture)"}
     rep.stats.units |= {"cohdl._core._collect_ast_and_scope.FunctionDefinition.bind_args / from_callable", "cohdl._compiler.frontend._prepare_ast.PrepareAst._split_target"}
-    rep.assumptions += ["claimed: argument binding and starred-target splitting only; NOT claimed: statement/expression tracing (apply_impl), closures, classes, comprehensions -- symbolic values cannot flow through the tracer (it dispatches through unbound builtin descriptors) and the remaining quantifier is over program text",
+    rep.assumptions += ["claimed: argument binding, starred-target splitting, and a bank of %d plain-Python programs over three selectors in 0..3 each (operator dispatch with reflected fallbacks and declining operands, chained comparisons, and/or/not as truth values, parameter kinds, binding errors, closures vs globals, late binding, classes / super / properties / __call__, unpacking, subscripts and slices, comprehensions, constant control flow, builtins): compile-time value == CPython value, or rejected; CPython raises => rejected" % len(H.PROGS.BANK),
+                        "the tracer cannot run on symbolic values (it dispatches through unbound builtin descriptors): CrossHair only chooses the selector values path by path, the real tracer then runs concretely (NoTracing); 'Confirmed over all paths' = all 64 selector triples of a program agree. NOT claimed: programs outside the bank (the quantifier over program text)",
                         "signature bank: 18 signatures with every parameter-kind mix up to 4 parameters; call shapes: 0..5 positionals x any subset of 5 keyword names"]
     return rep.finish({
-        "explanation": f"{len(fs)} CrossHair conditions ({confirmed} confirmed over all paths, cpu {round(cpu)} s): 18 signatures x 192 call shapes each + starred target splitting; partial claim (binding only)",
+        "explanation": f"{len(fs)} CrossHair conditions ({confirmed} confirmed over all paths, cpu {round(cpu)} s): 18 signatures x 192 call shapes each + starred target splitting + {len(H.PROGS.BANK)} bank programs x 64 selector triples; partial claim",
+        "program_census": cen,
         "evaluations": len(fs), "distinct_nontrivial": len(rep.stats.nontrivial), "conditions": len(fs), "confirmed": confirmed,
         "samples": [{"condition": fs[13][0], "signature": str(H.SIGS[13])}],
     })
